@@ -8,6 +8,7 @@ Every variant runs the SAME seeded call in this same interpreter, after its prel
 from __future__ import annotations
 
 import contextlib
+import warnings
 import hashlib
 import io
 import json
@@ -87,6 +88,24 @@ def main():
                 with contextlib.redirect_stdout(io.StringIO()):
                     m.fit(gen.to_dataset(d), "mcmc_saem", n_iter=6, seed=3, progress_bar=False)
                     m.personalize(gen.to_dataset(d), "mode_posterior", seed=1, n_iter=5, n_burn_in_iter=1, progress_bar=False)
+            elif st == "customised_calls":
+                # earlier calls that customised nested option dictionaries of the algorithms (an optimiser's options, an annealing scheme,
+                # acceptance bounds): options given to ONE call belong to that call
+                m = gen.make_model("logistic", 2, 1, "gaussian-diagonal")
+                r = np.random.default_rng(78)
+                d = gen.cohort(r, n_ind=5, n_feat=2, missing="none", one_visit_ok=False)
+                with contextlib.redirect_stdout(io.StringIO()), warnings.catch_warnings():
+                    warnings.simplefilter("ignore")
+                    m.fit(gen.to_dataset(d), "mcmc_saem", n_iter=8, seed=3, progress_bar=False,
+                          annealing={"do_annealing": True, "initial_temperature": 4.0, "n_plateau": 3, "n_iter_frac": 0.4},
+                          sampler_pop_params={"acceptation_history_length": 5, "mean_acceptation_rate_target_bounds": (0.1, 0.6), "adaptive_std_factor": 0.3},
+                          sampler_ind_params={"acceptation_history_length": 4, "mean_acceptation_rate_target_bounds": (0.15, 0.5), "adaptive_std_factor": 0.2})
+                    for uj in (False, True):
+                        m.personalize(gen.to_dataset(d), "scipy_minimize", seed=1, progress_bar=False, use_jacobian=uj,
+                                      custom_scipy_minimize_params={"method": "Powell", "options": {"maxiter": 2, "xtol": 1e-1, "ftol": 1e-1}}
+                                      if not uj else {"method": "BFGS", "options": {"maxiter": 2, "gtol": 1e-1}})
+                    m.personalize(gen.to_dataset(d), "mean_posterior", seed=1, n_iter=6, n_burn_in_iter=2, progress_bar=False,
+                                  annealing={"do_annealing": True, "initial_temperature": 3.0, "n_plateau": 2, "n_iter_frac": 0.5})
             elif st == "double_default":
                 torch.set_default_dtype(torch.float64)
             elif st == "float_default":
